@@ -37,7 +37,7 @@ def emit_node(n):
     if k in ("inline", "nested", "nested2", "nested3", "tryexcept"):
         parts.append(n["g"])
     parts += n.get("args", [])
-    for key in ("valid", "op", "count", "period", "value", "delay", "p", "q", "all", "eid"):
+    for key in ("valid", "op", "count", "period", "value", "delay", "p", "q", "all", "eid", "ty"):
         if key in n and n[key] is not None:
             parts.append("%s=%s" % (key, n[key]))
     parts.append("id=%d" % n.get("id", 0))
@@ -79,7 +79,7 @@ def statements(prog):
     out = [emit_node(n) for n in prog["nodes"]]
     out += ["bind %s %s" % (h, p) for h, p in prog.get("binds", [])]
     for s in prog.get("sinks", []):
-        out.append("%s %d %s" % (s["kind"], s["id"], s["port"]))
+        out.append("%s %d %s" % (s["kind"], s["id"], s["port"]) + ("".join(" %s=%d" % (k, s[k]) for k in ("depth", "values") if k in s) if s["kind"] == "err" else ""))
     return out
 
 
@@ -313,7 +313,7 @@ class Model:
         for n in self.nodes:
             k = n["kind"]
             nid = n.get("id", 0)
-            if k in ("source", "ticker", "c1", "c2", "c3", "sample", "samplemid", "accum", "timer0", "timer1", "timer1v", "suml", "sumb"):
+            if k in ("source", "ticker", "c1", "c2", "c3", "sample", "samplemid", "conv", "accum", "timer0", "timer1", "timer1v", "suml", "sumb"):
                 if self.fault_hit(nid, "start"):
                     self.failed = (nid, "start", t)
                     return
@@ -479,6 +479,12 @@ class Model:
                         if w:
                             self.write(n, t, val)
                     self.run_user(n, t, views, body)
+            elif k == "conv":
+                v = self.view(n["args"][0], t)
+                if not n["args"][0].startswith("~") and v[1] and v[0]:
+                    def body(n=n, v=v):
+                        self.write(n, t, norm(2 * v[2] + 1) if n.get("ty") == "F" else norm(v[2] + 1))
+                    self.run_user(n, t, [v], body)
             elif k == "accum":
                 v = self.view(n["args"][0], t)
                 act = not n["args"][0].startswith("~")
